@@ -77,10 +77,26 @@ func (c04) Gen(seed uint64, run int, tier string) *Plan {
 		p.Actions = append(p.Actions, Action{Kind: "checkin", B: 0})
 		return p
 	}
+	// a third of the runs: a chain of one or two SMB pivot agents below the first agent; their tasks
+	// travel in its queue and come out of its check-ins
+	p.Knobs["pivot"] = []int{0, 0, 0, 0, 1, 2}[r.Intn(6)]
 	for i := 0; i < n; i++ {
 		x := r.Intn(100)
 		d := r.Intn(p.Knobs["demons"])
 		o := r.Intn(p.Knobs["ops"])
+		if p.Knobs["pivot"] > 0 && r.Intn(4) == 0 {
+			if r.Intn(5) == 0 {
+				// the pipe to the last agent of the chain drops and is connected again
+				// (D odd: an operator tasks it while it has no link)
+				p.Actions = append(p.Actions, Action{Kind: "prelink", A: o, D: r.Intn(1 << 10)})
+			} else {
+				p.Actions = append(p.Actions, Action{Kind: "ptask", A: o, B: r.Intn(p.Knobs["pivot"]), D: r.Intn(900)})
+			}
+			if r.Intn(2) == 0 {
+				p.Actions = append(p.Actions, Action{Kind: "checkin", B: 0})
+			}
+			continue
+		}
 		switch {
 		case x < 45:
 			a := Action{Kind: "task", A: o, B: d, C: r.Intn(4)}
@@ -141,6 +157,11 @@ type c04State struct {
 	taskN int
 	// upload reassembly per demon
 	chunks map[int]map[uint32]*c04File
+	// SMB pivot chain below agent 0 (not in w.Demons: these agents never check in themselves)
+	piv        []*world.Demon
+	pfifo      map[*world.Demon][]uint32       // request ids issued, in order, not yet seen at the agent
+	pdelivered map[*world.Demon]map[uint32]int // how often each id emerged at the agent
+	pseen      map[*world.Demon]int
 }
 
 type c04File struct {
@@ -215,8 +236,17 @@ func (c04) Exec(p *Plan, dir string) *Result {
 		st.issued[i] = map[uint32]bool{}
 		st.chunks[i] = map[uint32]*c04File{}
 	}
+	st.pfifo, st.pdelivered, st.pseen = map[*world.Demon][]uint32{}, map[*world.Demon]map[uint32]int{}, map[*world.Demon]int{}
+	for k, par := 0, w.Demons[0]; k < p.Knob("pivot", 0); k++ {
+		ch := &world.Demon{ID: uint32(0x04c00000 + k), Key: randBytes(r, 32), IV: randBytes(r, 16), Meta: genMeta(r, 20+k)}
+		w.RegisterVia(par, ch)
+		st.piv = append(st.piv, ch)
+		st.pdelivered[ch] = map[uint32]int{}
+		par = ch
+		res.Probe("pivot-chains")
+	}
 	w.Sim.SetPolicy(p.Policy)
-	res.FP("demons", len(w.Demons), "ops", len(w.Operators), p.Policy.Name)
+	res.FP("demons", len(w.Demons), "ops", len(w.Operators), p.Policy.Name, len(st.piv))
 
 	for i := 0; i < len(p.Actions); i++ {
 		a := p.Actions[i]
@@ -233,12 +263,54 @@ func (c04) Exec(p *Plan, dir string) *Result {
 				}
 			}
 			st.fifo[di] = append(st.fifo[di], es...)
+		case "ptask":
+			if len(st.piv) == 0 {
+				continue
+			}
+			ch := st.piv[a.B%len(st.piv)]
+			tid := st.taskID()
+			var rid uint32
+			fmt.Sscanf(tid, "%x", &rid)
+			w.Operators[a.A%len(w.Operators)].Task(ch.NameID(), tid, world.CmdSleep, "sleep", map[string]any{"Arguments": fmt.Sprintf("%d;1", a.D)})
+			w.Sim.Settle()
+			st.pfifo[ch] = append(st.pfifo[ch], rid)
+			res.Probe("tasks-for-pivot-agents")
+		case "prelink":
+			if len(st.piv) == 0 {
+				continue
+			}
+			leaf := st.piv[len(st.piv)-1]
+			var db world.PB
+			db.Int32(world.PivotSMBDisconnect).Int32(1).Int32(leaf.ID)
+			st.sendUp(leaf.Parent, []world.Pkg{{Cmd: world.CmdPivot, RID: 0, Body: db.B}})
+			if len(res.Violations) > 0 {
+				break
+			}
+			if a.D%2 == 1 {
+				tid := st.taskID()
+				var rid uint32
+				fmt.Sscanf(tid, "%x", &rid)
+				w.Operators[a.A%len(w.Operators)].Task(leaf.NameID(), tid, world.CmdSleep, "sleep", map[string]any{"Arguments": fmt.Sprintf("%d;1", a.D)})
+				w.Sim.Settle()
+				st.pfifo[leaf] = append(st.pfifo[leaf], rid)
+				res.Probe("task-for-an-unlinked-pivot-agent")
+			}
+			var cb world.PB
+			cb.Int32(world.PivotSMBConnect).Int32(1).Bytes(leaf.InitPacket())
+			st.sendUp(leaf.Parent, []world.Pkg{{Cmd: world.CmdPivot, RID: 0, Body: cb.B}})
+			res.Probe("pivot-link-dropped-and-restored")
 		case "clear":
 			di := a.B % len(w.Demons)
 			op := w.Operators[a.A%len(w.Operators)]
 			op.Task(w.Demons[di].NameID(), st.taskID(), 0, "task::clear", map[string]any{"CommandID": "Teamserver", "Command": "task::clear"})
 			w.Sim.Settle()
 			st.fifo[di] = nil
+			if di == 0 {
+				// the first agent's queue also held the frames addressed to its pivot chain
+				for _, ch := range st.piv {
+					st.pfifo[ch] = nil
+				}
+			}
 			res.Probe("queue-cleared")
 		case "checkin":
 			di := a.B % len(w.Demons)
@@ -316,6 +388,14 @@ func (c04) Exec(p *Plan, dir string) *Result {
 			}
 		}
 	}
+	if len(res.Violations) == 0 && !w.Sim.Exited {
+		for _, ch := range st.piv {
+			if q := st.pfifo[ch]; len(q) > 0 {
+				res.Violate("C04", "lost", "pivot-task-never-delivered", fmt.Sprintf("pivot agent %s (depth %d): %d queued task(s) never came out of the check-ins of the chain's first agent, first rid=%x", ch.NameID(), ch.Depth(), len(q), q[0]), w.Sim)
+				break
+			}
+		}
+	}
 	for _, d := range w.Demons {
 		for _, b := range d.BadReplies {
 			res.Violate("C04", "malformed-reply", "task-stream", b, w.Sim)
@@ -371,6 +451,11 @@ func (st *c04State) checkBatch(di int, c *simrt.HTTPCall, ts []world.Task, seque
 	if c.Rec.Status() != 200 {
 		res.Violate("C04", "checkin-failed", fmt.Sprintf("status-%d", c.Rec.Status()), fmt.Sprintf("agent %s: check-in answered %d", d.NameID(), c.Rec.Status()), w.Sim)
 		return
+	}
+	if len(st.piv) > 0 && di == 0 {
+		if ts = st.routePivots(ts, sequential); len(res.Violations) > 0 {
+			return
+		}
 	}
 	res.ProbeN("tasks-delivered", len(ts))
 	res.Probe("checkins")
@@ -456,6 +541,76 @@ func (st *c04State) checkBatch(di int, c *simrt.HTTPCall, ts []world.Task, seque
 		res.Probe("limit-cut-taken")
 		st.pendingCut(di, total, q)
 	}
+}
+
+// routePivots takes the COMMAND_PIVOT tasks out of a batch of the chain's first agent, forwards them
+// hop by hop as the Demons would, and checks what emerged at each pivot agent: every task at most
+// once, and (sequential phases) in the order in which the operator issued them.
+func (st *c04State) routePivots(ts []world.Task, sequential bool) []world.Task {
+	w, res := st.w, st.res
+	var own, piv []world.Task
+	for _, t := range ts {
+		if t.Cmd == world.CmdPivot {
+			piv = append(piv, t)
+		} else {
+			own = append(own, t)
+		}
+	}
+	if len(piv) == 0 {
+		return own
+	}
+	w.Route(w.Demons[0], piv)
+	for _, rp := range w.RouteProblems {
+		res.Violate("C04", "malformed-reply", "pivot-frame", fmt.Sprintf("at hop %s (depth %d): %s", rp.Hop, rp.Depth, rp.What), w.Sim)
+	}
+	w.RouteProblems = nil
+	for _, ch := range st.piv {
+		for ; st.pseen[ch] < len(ch.Tasks); st.pseen[ch]++ {
+			t := ch.Tasks[st.pseen[ch]]
+			if t.Cmd == world.CmdPivot {
+				continue
+			}
+			res.Probe("pivot-tasks-delivered")
+			st.pdelivered[ch][t.RID]++
+			if st.pdelivered[ch][t.RID] > 1 {
+				res.Violate("C04", "duplicate", "pivot-task-delivered-twice", fmt.Sprintf("pivot agent %s (depth %d): task rid=%x came out of the first agent's check-ins %d times", ch.NameID(), ch.Depth(), t.RID, st.pdelivered[ch][t.RID]), w.Sim)
+				return own
+			}
+			q := st.pfifo[ch]
+			at := -1
+			for k, rid := range q {
+				if rid == t.RID {
+					at = k
+					break
+				}
+			}
+			switch {
+			case at < 0:
+				res.Violate("C04", "unexpected", "pivot-task-not-queued", fmt.Sprintf("pivot agent %s: received rid=%x cmd=%d which is not queued for it", ch.NameID(), t.RID, t.Cmd), w.Sim)
+				return own
+			case at > 0 && sequential:
+				res.Violate("C04", "order", "pivot-reordered-or-lost", fmt.Sprintf("pivot agent %s (depth %d): expected rid=%x next, received rid=%x", ch.NameID(), ch.Depth(), q[0], t.RID), w.Sim)
+				return own
+			}
+			st.pfifo[ch] = append(q[:at:at], q[at+1:]...)
+		}
+	}
+	return own
+}
+
+// sendUp relays packages of pivot agent d (or of agent 0 itself) up the chain in one request of the
+// first agent and checks the reply like any other check-in.
+func (st *c04State) sendUp(d *world.Demon, pkgs []world.Pkg) {
+	w := st.w
+	frame := d.Frame(pkgs)
+	for p := d.Parent; p != nil; p = p.Parent {
+		var pb world.PB
+		pb.Int32(world.PivotSMBCommand).Bytes(frame)
+		frame = p.Frame([]world.Pkg{{Cmd: world.CmdPivot, RID: 0, Body: pb.B}})
+	}
+	root := w.Demons[0]
+	c := w.Do(world.AgentReq{Port: root.Port, URI: root.URI, Headers: root.Hdrs, Body: frame, Peer: root.Peer})
+	st.checkBatch(0, c, w.Absorb(root, c), true)
 }
 
 // pendingCut: a reply stopped with tasks still queued. Remember the batch size; the next task's
@@ -627,7 +782,9 @@ func (st *c04State) parallel(group []Action, stall bool) {
 		}
 		var rids []uint32
 		for _, t := range ts {
-			rids = append(rids, t.RID)
+			if t.Cmd != world.CmdPivot { // frames for the pivot chain are judged by routePivots
+				rids = append(rids, t.RID)
+			}
 		}
 		got[k.di] = append(got[k.di], rids...)
 		for i, rid := range rids {
@@ -651,7 +808,9 @@ func (st *c04State) parallel(group []Action, stall bool) {
 			}
 			var rids []uint32
 			for _, t := range ts {
-				rids = append(rids, t.RID)
+				if t.Cmd != world.CmdPivot {
+					rids = append(rids, t.RID)
+				}
 			}
 			got[di] = append(got[di], rids...)
 			for i, rid := range rids {
